@@ -157,11 +157,12 @@ Definition is_objstm (o : obj) : bool :=
 Definition or_insert (m : objmap) (id : oid) (o : obj) : objmap :=
   match lookup m id with Some _ => m | None => insert m id o end.
 
-(* the closure `entries_filter_map` run over the table in key order (sequential build; with rayon the
-   blocks may arrive in another order -- Model/Sched.v, property C08).  Result: the objects and the
-   concatenated object-stream blocks. *)
-Definition load_entry (L : layout) (encrypted : bool) (acc : objmap * list (oid * obj)) (kv : N * xentry)
-  : objmap * list (oid * obj) :=
+(* the closure `entries_filter_map` run over the table in key order.  Result: the objects read from
+   Normal entries and the object-stream blocks, each tagged with the KEY of the container's entry.
+   With rayon the blocks arrive in any order and are then sorted by that key (reader.rs, commit
+   f28e935), which is the order produced here; the permutation argument is Model/Sched.v (C08). *)
+Definition load_entry (L : layout) (encrypted : bool) (acc : objmap * list (N * objmap)) (kv : N * xentry)
+  : objmap * list (N * objmap) :=
   match snd kv with
   | XNormal off _ =>
     if (l_buflen L <? Z.of_N off)%Z then acc
@@ -172,17 +173,29 @@ Definition load_entry (L : layout) (encrypted : bool) (acc : objmap * list (oid 
         if is_objstm (p_obj p) && negb encrypted then
           match p_members p with
           | None => acc                                   (* ObjectStream::new(..).ok()? *)
-          | Some ms => (insert (fst acc) (p_id p) (p_obj p), snd acc ++ ms)
+          | Some ms => (insert (fst acc) (p_id p) (p_obj p), snd acc ++ [(fst kv, ms)])
           end
         else (insert (fst acc) (p_id p) (p_obj p), snd acc)
       end
   | _ => acc
   end.
 
+(* commit 44beb46: the merged table names this block as the container of the member *)
+Definition named_by (t : xmap) (k : N) (io : oid * obj) : bool :=
+  match xget t (fst (fst io)) with
+  | Some (XCompressed c _) => (c =? k)%N
+  | _ => false
+  end.
+
+Definition or_insert_all (m : objmap) (l : list (oid * obj)) : objmap :=
+  fold_left (fun m io => or_insert m (fst io) (snd io)) l m.
+
 Definition load_objects (L : layout) (encrypted : bool) (t : xmap) : objmap :=
   let r := fold_left (load_entry L encrypted) t ([], []) in
-  (* "Only add entries, but never replace entries" *)
-  fold_left (fun m io => or_insert m (fst io) (snd io)) (snd r) (fst r).
+  (* pass A: members the table places in exactly this container, blocks in key order *)
+  let a := fold_left (fun m b => or_insert_all m (filter (named_by t (fst b)) (snd b))) (snd r) (fst r) in
+  (* pass B, "only add entries, but never replace entries": the remaining members, same order *)
+  fold_left (fun m b => or_insert_all m (filter (fun io => negb (named_by t (fst b) io)) (snd b))) (snd r) a.
 
 Record loaded := { ld_xref : xref; ld_trailer : dict; ld_max_id : N; ld_start : N; ld_objects : objmap }.
 
